@@ -99,6 +99,10 @@ def run(ctx):
             cfg = tu.gen_config(ctx.rng)
             if i % 4 == 0 and not cfg["joint"]:
                 cfg["beta_vector_seed"] = ctx.rng.randrange(2 ** 31)
+            if i % 8 == 1 and "beta_vector_seed" not in cfg:
+                # the scalar switching cost handed over as a NumPy object (0-d array, float32, int64) instead of a float
+                cfg["beta_form"] = ["0d", "f32", "i64", "0d"][(i // 8) % 4]
+                cfg["beta"] = cfg["beta"] or 5.0
             if i % 5 == 0:
                 cfg["limit"] = 1          # stopped by the limit, labels far from a fixed point
             if i % 6 == 0:
@@ -195,6 +199,8 @@ def run(ctx):
             ctx.count("runs_with_empty_final_cluster")
         if isinstance(beta, np.ndarray):
             ctx.count("runs_vector_beta")
+        if cfg.get("beta_form"):
+            ctx.count("runs_scalar_beta_as:" + cfg["beta_form"])
         if cfg.get("force_final"):
             ctx.count("runs_forced_final:" + cfg["force_final"])
         for (site, msg, extra) in oracles.result_consistency(res, K, beta, cfg["joint"], check_cost=not cfg.get("force_final")):
